@@ -12,6 +12,7 @@ from hgv.trace import Trace
 from hgv.worker import HarnessError
 
 ID = "C11"
+ASAN_THOROUGH = True   # thorough tier runs against the AddressSanitizer build
 RULE = ("reduce(C, coll[, zero]) with an associative-commutative combiner C (a two-input harness node computing +, max or xor, or a "
         "two-node sub-graph computing the same) over (a) a scripted TSD[int,TS[int]] with adds, updates, removes, several per cycle, "
         "shrink to empty and regrow, bursts crossing 1/2/4/8/16/32 live keys, or (b) a fixed TSL[TS[int],n] whose elements become valid "
